@@ -428,7 +428,7 @@ func genClasses(e *emitter) {
 		}
 		for payload := 0; payload <= 3; payload++ {
 			for clock := 0; clock <= 2; clock++ {
-				for vb, b := range [][][]int{{{0}, {8}, {2}, {8}}, {{1}, {0}, {0}, {3}}} {
+				for vb, b := range [][][]int{{{0}, {8}, {2}, {8}}, {{1}, {0}, {0}, {3}}, {{110}, {0}, {2}, {0}}, {{111}, {112}, {2}, {0}}} {
 					c := Case{Gen: "classes:first-event", Hist: hist, Ety: 1, Beh: b, Payload: payload, Clock: clock}
 					_ = n
 					if vb == 1 {
@@ -476,6 +476,80 @@ func genClasses(e *emitter) {
 	}
 }
 
+// ---------- reentrant: nodes that change the registry from inside Process, during the fan-out ----------
+// Four pipelines of one type with roots of their own and a shared formatter and sink. A root retires its OWN pipeline
+// (RemovePipeline / RemovePipelineAndNodes), a root removes ANOTHER pipeline (visited already or not, as the runtime's order has
+// it), the shared inner node removes one, a root registers a NEW pipeline, a node (re-)registers a node; alone and combined.
+// Every pipeline registered before the Send and not touched during it must be traversed exactly once; a pipeline removed or
+// added during the Send may or may not be (the observation is fed to the model); Send returns; the following Sends see
+// the registry the calls left behind.
+func genReentrant(e *emitter) {
+	idType := map[int]int{1: 1, 2: 2, 3: 3, 4: 1, 5: 1, 6: 4, 7: 1}
+	base, _ := histFor(idType, []int{1, 2, 3, 4, 5, 6, 7}, []pdesc{{1, 1, []int{1, 2, 3}}, {2, 1, []int{4, 2, 3}}, {3, 1, []int{5, 2, 3}}, {4, 1, []int{6, 3}},
+		{1, 2, []int{7, 2, 3}}})
+	reent := []Op{
+		{K: "rmpipe", Pid: 1, Ety: 1},                      // 100
+		{K: "rpan", Pid: 2, Ety: 1},                        // 101
+		{K: "rmpipe", Pid: 3, Ety: 1},                      // 102
+		{K: "regpipe", Pid: 5, Ety: 1, IDs: []int{7, 2, 3}}, // 103
+		{K: "regnode", ID: 8, Ty: 1},                       // 104
+		{K: "rmpipe", Pid: 4, Ety: 1},                      // 105
+		{K: "rpan", Pid: 1, Ety: 2},                        // 106 (another type's pipeline)
+	}
+	// behaviour per object 1..7 (ids 1..7 in order)
+	pass := func() [][]int { return [][]int{{0}, {0}, {2}, {0}, {0}, {0}, {0}} }
+	type cfg struct {
+		name string
+		set  map[int]int // object -> code
+	}
+	cfgs := []cfg{
+		{"root-retires-own-pipeline", map[int]int{1: 100}},
+		{"root-retires-own-pipeline-and-nodes", map[int]int{4: 101}},
+		{"root-removes-another-pipeline", map[int]int{1: 102}},
+		{"root-removes-another-pipeline-2", map[int]int{5: 100}},
+		{"inner-node-removes-a-pipeline", map[int]int{2: 105}},
+		{"sink-removes-a-pipeline", map[int]int{3: 102}},
+		{"root-registers-a-new-pipeline", map[int]int{5: 103}},
+		{"root-registers-a-node", map[int]int{6: 104}},
+		{"root-removes-other-types-pipeline", map[int]int{4: 106}},
+		{"two-roots-retire-themselves", map[int]int{1: 100, 4: 101}},
+		{"retire-and-register", map[int]int{1: 100, 5: 103, 6: 105}},
+	}
+	for _, cf := range cfgs {
+		for rep := 0; rep < 3; rep++ {
+			beh := pass()
+			for o, code := range cf.set {
+				beh[o-1] = []int{code}
+			}
+			c := Case{Gen: "reentrant:" + cf.name, Hist: append(append([]Op{}, base...), Op{K: "thr", Ety: 1, V: int64(rep)}), Ety: 1, Beh: beh, Reent: reent,
+				Then: []Step{{Ety: 1}, {Ety: 2}}}
+			if rep == 2 {
+				c.Sched.Jitter = uint64(7 + rep)
+			}
+			n := numberSeq(&c)
+			for len(c.Beh) < n {
+				c.Beh = append(c.Beh, []int{0})
+			}
+			e.runSeq(c)
+		}
+	}
+}
+
+// ---------- stress: threshold setters of a type racing Sends of that type ----------
+func genStress(e *emitter, ms int) {
+	idType := map[int]int{1: 1, 2: 2, 3: 3, 4: 4}
+	base, _ := histFor(idType, []int{1, 2, 3, 4}, []pdesc{{1, 1, []int{1, 2, 3}}, {2, 1, []int{4, 3}}, {1, 2, []int{1, 2, 3}}})
+	c := Case{Gen: "stress-thresholds", Hist: base, Ety: 1, Beh: [][]int{{0}, {0}, {2, 0}, {1}},
+		Then: []Step{
+			// four senders x a goroutine toggling both thresholds of the type; then the thresholds are set to known values and an
+			// already cancelled Send, a live Send and a Send of another type must return
+			{StressMs: ms, StressEty: 1, Ops: []Op{{K: "thr", Ety: 1, V: 2}, {K: "thrs", Ety: 1, V: 1}}, Ety: 1, Sched: Sched{Pre: true}},
+			{Ety: 1}, {Ety: 2},
+		}}
+	numberSeq(&c)
+	e.runSeq(c)
+}
+
 // ---------- sequence: several Sends on ONE Broker with registry calls in between ----------
 // Every Send must dispatch to exactly the pipelines registered at that moment (the model's roots are those of the registry
 // model after everything the Broker was told so far).  Base: three pipelines of type 1 (sharing nodes) and one of type 2,
@@ -513,27 +587,29 @@ func seqMutations(idType map[int]int) [][]Op {
 	}
 }
 
-// number the objects of the regnode ops over the whole sequence
+// number the objects of the regnode ops over the whole sequence (history, steps, third-party calls, calls made by nodes)
 func numberSeq(c *Case) int {
 	k := 0
-	num := func(ops []Op) {
-		for i := range ops {
-			if ops[i].K == "regnode" {
+	num := func(ops []Op) []Op {
+		out := append([]Op{}, ops...)
+		for i := range out {
+			if out[i].K == "regnode" {
 				k++
-				ops[i].Obj = k
+				out[i].Obj = k
 			}
 		}
+		return out
 	}
-	c.Hist = append([]Op{}, c.Hist...)
-	num(c.Hist)
+	c.Hist = num(c.Hist)
+	c.Then = append([]Step{}, c.Then...)
 	for i := range c.Then {
-		c.Then[i].Ops = append([]Op{}, c.Then[i].Ops...)
-		num(c.Then[i].Ops)
-		c.Then[i].Async = append([]Op{}, c.Then[i].Async...)
-		num(c.Then[i].Async)
+		c.Then[i].Ops = num(c.Then[i].Ops)
+		c.Then[i].Async = num(c.Then[i].Async)
 	}
+	c.Reent = num(c.Reent)
 	return k
 }
+
 
 // registry calls that FAIL between Sends, each followed by a RegisterPipeline that references the ids it touched: the
 // registry model says which object every id resolves to afterwards (a refused call changes nothing).
@@ -550,6 +626,10 @@ func seqRefusals(idType map[int]int) [][]Op {
 		{{K: "regpipe", Pid: 6, Ety: 1, IDs: []int{1, 3, 5}}, {K: "regpipe", Pid: 5, Ety: 1, IDs: []int{1, 3, 5}}},
 		{{K: "regpipe", Pid: 1, Ety: 1, IDs: []int{1, 9, 5}}, {K: "regpipe", Pid: 8, Ety: 1, IDs: []int{9, 3, 5}}, {K: "regpipe", Pid: 5, Ety: 1, IDs: []int{1, 3, 5}}},
 		{{K: "regpipe", Pid: 1, Ety: 1, IDs: []int{1, 5}}, {K: "regpipe", Pid: 8, Ety: 1, IDs: []int{3, 1, 5}}, {K: "regpipe", Pid: 8, Ety: 3, IDs: []int{1, 6}}, {K: "regpipe", Pid: 5, Ety: 1, IDs: []int{1, 3, 6}}},
+		// refused shapes whose tail is a non-sink right after a formatter / a formatter / a formatter-filter: never registered,
+		// so the following Send must not report them
+		{{K: "regpipe", Pid: 8, Ety: 1, IDs: []int{3, 1}}, {K: "regpipe", Pid: 9, Ety: 1, IDs: []int{1, 3}}, {K: "regpipe", Pid: 10, Ety: 1, IDs: []int{1, 3, 4}},
+			{K: "regpipe", Pid: 11, Ety: 1, IDs: []int{3, 2}}, {K: "regpipe", Pid: 5, Ety: 1, IDs: []int{1, 3, 5}}},
 		// RemoveNode refused (in use), then the id is used again
 		{{K: "rmnode", ID: 3}, {K: "rmnode", ID: 5}, {K: "regpipe", Pid: 5, Ety: 1, IDs: []int{2, 3, 5}}},
 		// RemovePipelineAndNodes / RemovePipeline of an unknown pipeline, of a type without graph
